@@ -11,9 +11,9 @@ CONSTANTS
   FlagSets = "all"
   Points <- MPoints
   BadPoints <- MBad
-  MaxMounts = 4
-  MaxSteps = 1
-  OpPaths <- Paths4
+  MaxMounts = 1
+  MaxSteps = 2
+  OpPaths <- Paths3
   RenPaths <- RenQ
 INVARIANT ModelProps
 CHECK_DEADLOCK FALSE
